@@ -89,10 +89,15 @@ impl Block for ZeroCrossing {
         }
         let mut n = 0;
         let mut opos = 0;
-        let mut out_clock = match self.out_clock.as_mut().map(|x| x.write_buf()) {
+        let mut out_clock = match self.out_clock.as_ref() {
             None => None,
-            Some(Ok(x)) => Some(x),
-            Some(Err(e)) => return Err(e),
+            Some(s) => {
+                let c = s.write_buf()?;
+                if c.is_empty() {
+                    return Ok(BlockRet::WaitForStream(s, 1));
+                }
+                Some(c)
+            }
         };
         let max_out = if let Some(ref clock) = out_clock {
             std::cmp::min(o.len(), clock.len())
